@@ -7,6 +7,8 @@ func init() {
 		ID:    "C01",
 		Title: "Expressions follow the precedence table, left associativity and typed arithmetic",
 		Rules: []string{
+			"R-LITERAL: literal text is converted with ParseInt(text, 10, 64) / ParseFloat(text, 64); the number reader takes only digits and dots (its loop is evaluated for every other byte)",
+			"R-EVALERR: the result of every recursive Eval is returned or tested with isError before use, and on the error side the error is what is returned (itself, wrapped, or as the single element of a result list)",
 			"R-PRATT: the operator model extracted from parser.go (precedences, registrations, binding powers per parse method, loop comparison) groups every operator sequence of <= 3 operators exactly as the specification grammar of C01",
 			"R-OPTABLE: the typed infix evaluators are dispatched under the equal-types test and the kind test; following the operands from evalInfixExp through the (possibly reordered) parameters, every case \"op\" computes left.Value <Go op> right.Value for the 11 integer, 10 float and 3 string operators; unary minus negates the payload; postfix ++/-- add/subtract 1 (float -- through the digit-preserving helper with its error consumed)",
 			"R-DIVGUARD: every integer / and % on the render path has a divisor that is a non-zero constant or is dominated by the non-zero edge of a comparison with 0",
@@ -16,6 +18,8 @@ func init() {
 		NotDecided:  "TODO",
 		Assumptions: trustedBase,
 		Run: func(m *Model, s *Sink) {
+			m.RunLiteral(s, "R-LITERAL")
+			m.RunEvalErr(s, "R-EVALERR") // a failing sub-expression fails the render: its error is returned, not replaced or left among the results
 			m.RunPratt(s, "R-PRATT")
 			m.RunCompleteExprSites(s, "R-PRATT-SITES")
 			// integer / and % in the typed evaluators are guarded
